@@ -176,7 +176,7 @@ def run(repo: Repo, rep: Report, tier: str) -> None:
             n_skip += 1
             gs = cguards(mc, n)
             ok = any(g == "entity_map.get(ELEM(layout_plan.wire_connections).source_entity_id) is None or entity_map.get(ELEM(layout_plan.wire_connections).sink_entity_id) is None" and pol for g, pol in gs) and len([g for g in gs if g[1]]) == 1
-            rep.check(ok, "C07-R3", f"a planned wire is skipped only when an endpoint entity is missing (`continue` at line offset {n.lineno - mc.node.lineno})",
+            rep.check(ok, "C07-R3", f"a planned wire is skipped only when an endpoint entity is missing (`continue` #{n_skip})",
                       "; ".join(g for g, p in gs if p) if ok else f"wire dropped under {[g for g, p in gs if p]}: part of the planned circuit is not in the blueprint", mc.loc(n))
     rep.floor("C07-R3", "skip sites in the wire materialiser", n_skip, 1)
     ver = [n for n in walk_local(em.node) if isinstance(n, ast.Assign) and norm(n.targets[0]) == "self.blueprint.version"]
